@@ -359,7 +359,7 @@ class Ctx:
                 return h(ex, e, args, kwargs, p)
             if ex.side != "real" and n.isupper() or (ex.side != "real" and re.fullmatch(r"[A-Z][A-Z0-9_]*", n)):
                 return self.spec_primitive(ex, e, n, args, kwargs, p)
-            if ex.side == "real":
+            if ex.side in ("real", "dry"):
                 # a module-level helper of the same module that has no contract of its own: its body is part of the caller's obligation
                 fdef, _ = self.extract(self.cur_module, n) if self.cur_module else (None, None)
                 if isinstance(fdef, ast.FunctionDef):
